@@ -2,9 +2,11 @@ package sx
 
 import (
 	"fmt"
-	"net"
 	"go/token"
 	"go/types"
+	"net"
+	"strconv"
+	"strings"
 
 	"gosymx/term"
 )
@@ -117,6 +119,11 @@ func (m *Machine) strEq(a, b value) value {
 				}
 				return acc
 			}
+			if s, ok := other.(string); ok {
+				if r, ok := m.matchFormatted(t, s); ok {
+					return r
+				}
+			}
 			m.unsupported("comparison of formatted tuple string with ordinary string")
 		}
 		if ta.format != tb.format || len(ta.args) != len(tb.args) {
@@ -199,4 +206,76 @@ func (m *Machine) concreteStr(s value, what string) string {
 	}
 	m.unsupported("symbolic string reaches %s", what)
 	return ""
+}
+
+// matchFormatted decides tstr == s for a concrete string s by reading s against the tuple's format:
+// literal text must match, a %s/%v argument that is a concrete string must match verbatim, and a
+// %d/%v argument that is an integer (possibly symbolic) must equal the maximal run of decimal digits
+// found at its place. The reading is unambiguous - and only then is an answer given - when every
+// integer verb is followed by a literal that does not start with a digit (or by the end).
+func (m *Machine) matchFormatted(t *tstr, s string) (value, bool) {
+	f := t.format
+	if strings.HasPrefix(f, "sym:") {
+		f = f[4:]
+	} else if f != "%s-%d" {
+		return nil, false
+	}
+	var acc value = true
+	ai, pos := 0, 0
+	for i := 0; i < len(f); {
+		if f[i] != '%' {
+			if pos >= len(s) || s[pos] != f[i] {
+				return false, true
+			}
+			pos++
+			i++
+			continue
+		}
+		if i+1 >= len(f) {
+			return nil, false
+		}
+		verb := f[i+1]
+		i += 2
+		if verb == '%' {
+			if pos >= len(s) || s[pos] != '%' {
+				return false, true
+			}
+			pos++
+			continue
+		}
+		if (verb != 's' && verb != 'd' && verb != 'v') || ai >= len(t.args) {
+			return nil, false
+		}
+		arg := t.args[ai]
+		ai++
+		switch a := arg.(type) {
+		case string:
+			if !strings.HasPrefix(s[pos:], a) {
+				return false, true
+			}
+			pos += len(a)
+		case uint64, *term.Term:
+			if i < len(f) && (f[i] == '%' || (f[i] >= '0' && f[i] <= '9')) {
+				return nil, false // ambiguous reading
+			}
+			st := pos
+			for pos < len(s) && s[pos] >= '0' && s[pos] <= '9' {
+				pos++
+			}
+			if pos == st || pos-st > 19 || (pos-st > 1 && s[st] == '0') {
+				return false, true
+			}
+			n, err := strconv.ParseUint(s[st:pos], 10, 64)
+			if err != nil {
+				return false, true
+			}
+			acc = m.and(acc, m.equals(nil, a, n))
+		default:
+			return nil, false
+		}
+	}
+	if pos != len(s) || ai != len(t.args) {
+		return false, true
+	}
+	return acc, true
 }
